@@ -3,7 +3,9 @@ package roomsim
 import (
 	"encoding/json"
 	"fmt"
+	"math/big"
 	"sort"
+	"strconv"
 	"strings"
 
 	gmsl "github.com/matrix-org/gomatrixserverlib"
@@ -39,17 +41,41 @@ func decodeObj(b []byte) map[string]any {
 	return m
 }
 
-// intLevel accepts only JSON integer literals.
+// lenientLevels is set while an event of a room version before 10 is judged:
+// there a level may also be a string holding an integer (surrounding white
+// space allowed) or a number with a fraction or an exponent, which stands for
+// its integer part. Values beyond 2^53 in such spellings are not judged.
+var lenientLevels bool
+
+// intLevel reads a level: JSON integer literals, and under lenientLevels the
+// other spellings room versions before 10 allow.
 func intLevel(v any) (int64, bool) {
-	n, ok := v.(json.Number)
-	if !ok {
-		return 0, false
+	switch x := v.(type) {
+	case json.Number:
+		if !strings.ContainsAny(x.String(), ".eE") {
+			n, err := x.Int64()
+			return n, err == nil
+		}
+		if !lenientLevels {
+			return 0, false
+		}
+		rat, ok := new(big.Rat).SetString(x.String())
+		if !ok {
+			return 0, false
+		}
+		q := new(big.Int).Quo(rat.Num(), rat.Denom()) // towards zero
+		if !q.IsInt64() || q.Int64() > 1<<53 || q.Int64() < -(1<<53) {
+			return 0, false
+		}
+		return q.Int64(), true
+	case string:
+		if !lenientLevels {
+			return 0, false
+		}
+		n, err := strconv.ParseInt(strings.TrimSpace(x), 10, 64)
+		return n, err == nil
 	}
-	if strings.ContainsAny(n.String(), ".eE") {
-		return 0, false
-	}
-	x, err := n.Int64()
-	return x, err == nil
+	return 0, false
 }
 
 func allInts(m map[string]any) bool {
@@ -112,6 +138,11 @@ func (rm *room) checkNE(ev gmsl.PDU, auth []gmsl.PDU) {
 	ver := ev.Version()
 	if intOnlyVersions[ver] && !allInts(nw) {
 		r.Violate("C08", "ne", "non_integer_level", "version %s accepted a power-levels event with a non-integer level: %s", ver, ev.Content())
+	}
+	lenientLevels = !intOnlyVersions[ver]
+	defer func() { lenientLevels = false }()
+	if lenientLevels && !func() bool { lenientLevels = false; defer func() { lenientLevels = true }(); return allInts(nw) }() {
+		r.Probe("ne_judged_with_lenient_level_spellings")
 	}
 	creators := map[string]bool{}
 	if create != nil {
